@@ -546,7 +546,9 @@ theorem nextImmediate_frame (s : Server) (i : Nat) : Frame i s (nextImmediate s 
         have := OwnEq.flDelete' c m.id
         rw [heq] at this
         exact this
-      have hs1 : Frame i s s1 [] := (Frame.refl i s []).setOwn _ hc1.decSend
+      -- the release also consumes one base-64 digit of `nextSeed` (a server field outside the frame)
+      have hs0 : Frame i s { s with nextSeed := s.nextSeed / 64 } [] := (Frame.refl i s []).upd rfl rfl rfl
+      have hs1 : Frame i s s1 [] := hs0.setOwn _ hc1.decSend
       split
       · exact hs1.upd rfl rfl rfl
       · exact hs1
@@ -677,35 +679,45 @@ theorem sendLWT_frame (s : Server) (i : Nat) : Frame i s (sendLWT s i).1 [] := b
 theorem sendLWT_isolation (s : Server) (i j : Nat) (h : j ≠ i) : SessEq (getObj s j) (getObj (sendLWT s i).1 j) :=
   (sendLWT_frame s i).other j h
 
+/-- the first half of `detach`: `sendLWT` + `stopClient` (error exit) or clearing the will (normal exit) -/
+theorem detachA_frame (s : Server) (i : Nat) (withErr : Bool) :
+    Frame i s (detachA s i withErr).1 (detachA s i withErr).2 := by
+  unfold detachA
+  split
+  · split
+    rename_i s2 o2 h2
+    split
+    rename_i s3 o3 h3
+    have a := sendLWT_frame s i
+    rw [h2] at a
+    have b := stopClient_frame s2 i
+    rw [h3] at b
+    exact (a.nil o2).trans b
+  · exact (Frame.refl i s []).modOwn (fun c => { c with will := {} }) (by own_rfl)
+
+/-- the second half of `detach`: the session clean-up and the counter decrement -/
+theorem detachB_frame (s : Server) (i : Nat) : Frame i s (detachB s i) [] := by
+  unfold detachB
+  extract_lets +onlyGivenNames c expire s3 s4 s2
+  refine Frame.upd (s := s2) ?_ rfl rfl rfl
+  show Frame i s (if (expire && !c.takenOver) = true then _ else s) []
+  split
+  · have h3 : Frame i s s3 [] := clearInflights_frame s i
+    have h4 : Frame i s s4 [] := h3.stepQ (unsubscribeClient_frame s3 i)
+    refine h4.delClient _ ?_
+    exact h4.id.symm
+  · exact Frame.refl i s []
+
 theorem detach_frame (s : Server) (i : Nat) (withErr : Bool) :
     Frame i s (detach s i withErr).1 (detach s i withErr).2 := by
   unfold detach
   split
   rename_i s1 o1 heq
   have hs1 : Frame i s s1 o1 := by
-    split at heq
-    · split at heq
-      rename_i s2 o2 h2
-      split at heq
-      rename_i s3 o3 h3
-      cases heq
-      have a := sendLWT_frame s i
-      rw [h2] at a
-      have b := stopClient_frame s2 i
-      rw [h3] at b
-      exact (a.nil o2).trans b
-    · cases heq
-      exact (Frame.refl i s []).modOwn _ (by own_rfl)
-  clear heq
-  extract_lets +onlyGivenNames c expire s3 s4 s2
-  refine Frame.upd (s := s2) ?_ rfl rfl rfl
-  show Frame i s (if (expire && !c.takenOver) = true then _ else s1) o1
-  split
-  · have h3 : Frame i s s3 o1 := hs1.stepQ (clearInflights_frame s1 i)
-    have h4 : Frame i s s4 o1 := h3.stepQ (unsubscribeClient_frame s3 i)
-    refine h4.delClient _ ?_
-    exact ((clearInflights_frame s1 i).trans (unsubscribeClient_frame s3 i)).id.symm
-  · exact hs1
+    have := detachA_frame s i withErr
+    rw [heq] at this
+    exact this
+  exact hs1.stepQ (detachB_frame s1 i)
 
 /-- `detach` for object `i` leaves every other object unchanged up to the delivery fields -/
 theorem detach_isolation (s : Server) (i j : Nat) (b : Bool) (h : j ≠ i) :
@@ -1052,11 +1064,8 @@ theorem recvOn_served_or_closed (s : Server) (c : Nat) (pk : InPk) (b : Bool) (i
 /-- leaving the read loop with an error closes a live network connection -/
 theorem detach_true_closes (s : Server) (i : Nat) (hin : (getObj s i).inline = false)
     (hst : (getObj s i).stopped = false) : Out.closed (getObj s i).conn ∈ (detach s i true).2 := by
-  unfold detach
-  split
-  rename_i s1 o1 heq
-  simp only [if_true] at heq
-  cases heq
+  unfold detach detachA
+  simp only [if_true]
   have a := sendLWT_frame s i
   have hst2 : (getObj (sendLWT s i).1 i).stopped = false := by
     rcases a.live_or_closed hin with ⟨_, h⟩ | h
